@@ -299,3 +299,38 @@ ADDED2 = {
 }
 for _p in CHECKS:
     CHECKS[_p]["text"] = CHECKS[_p]["text"] + " " + ADDED2.get(_p, "") + " " + _HI
+
+# Round 3 (DESIGN.md section 11, "Round 3").
+ADDED3 = {
+    "C01": "JSON decoder calls take no value-changing hook; nothing writes an object's property storage after construction.",
+    "C02": "Co-constraints decided on presence; a marking definition is of the kind definition_type names; integer tests refuse bool.",
+    "C03": "Range bounds are legal values; loop-accumulated flags are monotone; no floating point in the timestamp pipeline.",
+    "C04": "Already-built elements are counted; explicit False is not 'absent'; property objects hold no state; every named "
+           "constructor option is passed explicitly at every splat; the reference flag knows the whitelist; the two custom-name "
+           "computations agree; 2.1-only mechanisms under a version test (one site: known finding pinned by the suite).",
+    "C05": "The unmodifiable test covers every channel of change (custom_properties).",
+    "C06": "The id is computed when every contributing property is in place (who may write the property storage).",
+    "C07": "Removal is a filter over all entries; the selector walk stops only on a match.",
+    "C08": "The guard of the construction-time selector validation holds for every class with the slot.",
+    "C09": "Positions deleted in descending order; index and key path steps are disjoint raw values; chains extended through the "
+           "constructor.",
+    "C10": "Flattening keeps the operator; chains extended through the constructor; constructors do not update argument state in "
+           "place; timestamp literals printed by the one writer.",
+    "C11": "Read and write encodings originate in one store option; the newest-version key is the stored version itself; a failed "
+           "write leaves no file.",
+    "C12": "The optimiser uses the filter's value as given; attached filters reach every member (also through a helper); a path "
+           "step into a plain value does not match.",
+    "C13": "No constructor updates in place what it read from an argument.",
+    "C14": "2.1-only mechanisms under a version test (one site: known finding pinned by the suite).",
+    "C15": "Values are cut on the UTC instant; one writer / one reader of timestamp text; exact decimal arithmetic; the writer "
+           "accepts what the encoders send.",
+    "C16": "canonicalize() returns the encoder's text as produced.",
+    "C17": "Attribute reads hidden in format templates; OverflowError converted; renderers of raw input guarded; a failed write "
+           "leaves no file; composite registrations undone exactly.",
+    "C18": "Members of a composite are read only inside it; pure version key.",
+    "C19": "Undo covers only what the call registered; nothing can fail between the two registrations; the defining extension is "
+           "added to the caller's; names admitted by the extension-definition prefix are identifiers (registration site: known "
+           "finding pinned by the suite).",
+}
+for _p in CHECKS:
+    CHECKS[_p]["text"] = CHECKS[_p]["text"] + " " + ADDED3.get(_p, "")
